@@ -33,10 +33,20 @@ build_harness() {
       (cd "$ROOT/harness" && cargo clean --release -p hpke --target-dir "$TARGET" "${cfg[@]}" >/dev/null 2>&1 || true)
     fi
     if ! (cd "$ROOT/harness" && cargo build --release --target-dir "$TARGET" "${cfg[@]}" >"$TARGET/build.log" 2>&1); then
+      # C17's oracle is its own cargo invocations on the tree (the driver never executes hpke code),
+      # so a tree that no longer compiles with all features must not turn C17 into "inconclusive":
+      # fall back to the driver binary of the last successful build.
+      if [[ "$ID" == "C17" && -x "$TARGET/release/hv.last" ]]; then
+        echo "note: the harness does not build against this tree; C17 runs with the last built driver" >&2
+        cp "$TARGET/release/hv.last" "$TARGET/release/hv.c17"
+        exit 0
+      fi
       echo "INFRA harness build failed (see $TARGET/build.log)" >&2
       tail -n 30 "$TARGET/build.log" >&2
       exit 2
     fi
+    cp "$TARGET/release/hv" "$TARGET/release/hv.last"
+    rm -f "$TARGET/release/hv.c17"
     echo "$h|$TREE" > "$TARGET/.tree_hash"
   ) 9>"$TARGET/.build.lock" || exit 2
 }
@@ -46,6 +56,7 @@ case "$ID" in
 esac
 build_harness || exit 2
 HV="$TARGET/release/hv"
+if [[ "$ID" == "C17" && -x "$TARGET/release/hv.c17" ]]; then HV="$TARGET/release/hv.c17"; fi
 export HPKE_TREE="$TREE" VERIF_TARGET_BASE="${VERIF_TARGET_BASE:-$ROOT/target}"
 
 if [[ "$ARG2" == "--replay" ]]; then
